@@ -127,6 +127,9 @@ type Enc struct {
 	dry        int
 	writesC    map[*ssa.Alloc]bool
 	writesV    map[string]bool
+	writesFull map[string]bool // written other than at one recorded index
+	writesIdx  map[string][]T  // indices (object refs / array ids) written
+	freshIdx   map[string]bool // refs / array ids allocated during the dry run
 	prefix     string // name prefix for relational copies
 	errs       []string
 	strConsts  map[string]Str
@@ -140,6 +143,8 @@ type Enc struct {
 	seqTerms   []seqAt
 	seqAbstract bool // relational mode: sequences are abstract ids, no content quantifiers
 	usesSeq    bool
+	skipAssume map[string]bool
+	ufDecls    map[string]string
 	rel        *relInfo
 	seqByID    map[string]seqTerm
 	specSorts  map[string]specSort
@@ -283,6 +288,18 @@ func (e *Enc) setVar(key string, t T) {
 	e.cur.vars[key] = e.def("v_"+lastPart(key), t)
 	if e.writesV != nil {
 		e.writesV[key] = true
+		e.writesFull[key] = true
+	}
+}
+
+// setVarAt: the update changes the variable at index idx only (a heap field of
+// one object, the contents of one array). Loops use the recorded indices to
+// keep everything else across their havoc.
+func (e *Enc) setVarAt(key string, idx T, t T) {
+	e.cur.vars[key] = e.def("v_"+lastPart(key), t)
+	if e.writesV != nil {
+		e.writesV[key] = true
+		e.writesIdx[key] = append(e.writesIdx[key], idx)
 	}
 }
 
@@ -395,7 +412,7 @@ func (e *Enc) storeTo(p Ptr, t types.Type, v Val) {
 		for i, l := range ls {
 			key := heapKey(p.Obj, joinLeaf(prefix, l.Name))
 			h := e.getVar(e.cur, key, heapSort(l.Sort))
-			e.setVar(key, store(h, p.Ref, ts[i]))
+			e.setVarAt(key, p.Ref, store(h, p.Ref, ts[i]))
 		}
 	case pElem:
 		ls := leavesOf(t)
@@ -404,7 +421,7 @@ func (e *Enc) storeTo(p Ptr, t types.Type, v Val) {
 			key := memKey(p.Sl.Elem, l.Name)
 			m := e.getVar(e.cur, key, memSort(l.Sort))
 			inner := sel(m, p.Sl.Arr)
-			e.setVar(key, store(m, p.Sl.Arr, store(inner, add(p.Sl.Off, p.Idx), ts[i])))
+			e.setVarAt(key, p.Sl.Arr, store(m, p.Sl.Arr, store(inner, add(p.Sl.Off, p.Idx), ts[i])))
 		}
 	case pGlobal:
 		key := "V|" + p.Glob.Pkg.Pkg.Path() + "." + p.Glob.Name()
@@ -457,6 +474,7 @@ func (e *Enc) havocAll(why string) {
 		e.cur.vars[k] = e.freshT("hv_"+lastPart(k), t.Sort)
 		if e.writesV != nil {
 			e.writesV[k] = true
+			e.writesFull[k] = true
 		}
 	}
 	for k, srt := range e.keySorts {
@@ -482,6 +500,9 @@ func (e *Enc) bumpAlloc() {
 
 func (e *Enc) newRef() T {
 	r := e.cur.allocRef
+	if e.freshIdx != nil {
+		e.freshIdx[r.S] = true
+	}
 	n := e.def("allocRef", add(r, bv64(1)))
 	e.cur.allocRef = n
 	return r
@@ -489,6 +510,9 @@ func (e *Enc) newRef() T {
 
 func (e *Enc) newArr() T {
 	r := e.cur.allocArr
+	if e.freshIdx != nil {
+		e.freshIdx[r.S] = true
+	}
 	n := e.def("allocArr", add(r, bv64(1)))
 	e.cur.allocArr = n
 	return r
@@ -941,7 +965,7 @@ func (e *Enc) instr(f *frame, b *ssa.BasicBlock, in ssa.Instruction) {
 			n := bv64(uint64(at.Len()))
 			if isByte(at.Elem()) {
 				m := e.byteMem(e.cur)
-				e.setVar("M|byte", store(m, arr, T{"((as const " + SArr + ") #x00)", SArr}))
+				e.setVarAt("M|byte", arr, store(m, arr, T{"((as const " + SArr + ") #x00)", SArr}))
 			} else {
 				for _, l := range leavesOf(at.Elem()) {
 					key := memKey(at.Elem(), l.Name)
@@ -950,7 +974,7 @@ func (e *Enc) instr(f *frame, b *ssa.BasicBlock, in ssa.Instruction) {
 					if l.Sort != SBool {
 						zero = bv(0, sortWidth(l.Sort)).S
 					}
-					e.setVar(key, store(m, arr, T{"((as const (Array (_ BitVec 64) " + l.Sort + ")) " + zero + ")", "(Array (_ BitVec 64) " + l.Sort + ")"}))
+					e.setVarAt(key, arr, store(m, arr, T{"((as const (Array (_ BitVec 64) " + l.Sort + ")) " + zero + ")", "(Array (_ BitVec 64) " + l.Sort + ")"}))
 				}
 			}
 			f.vals[x] = Ptr{K: pArr, Sl: Sl{Arr: arr, Off: bv64(0), Len: n, Cap: n, Elem: at.Elem()}, Elem: t}
@@ -1317,7 +1341,7 @@ func (e *Enc) bytesToString(s Sl) Val {
 	i := "(i (_ BitVec 64))"
 	e.assume(T{fmt.Sprintf("(forall (%s) (! (=> (bvult i %s) (= (select %s i) (select (select %s %s) (bvadd %s i)))) :pattern ((select %s i))))",
 		i, s.Len.S, na.S, m.S, s.Arr.S, s.Off.S, na.S), SBool})
-	e.setVar("M|byte", store(m, arr, na))
+	e.setVarAt("M|byte", arr, store(m, arr, na))
 	return Str{Arr: arr, Off: bv64(0), Len: s.Len}
 }
 
@@ -1328,7 +1352,7 @@ func (e *Enc) stringToBytes(s Str) Val {
 	i := "(i (_ BitVec 64))"
 	e.assume(T{fmt.Sprintf("(forall (%s) (! (=> (bvult i %s) (= (select %s i) (select (select %s %s) (bvadd %s i)))) :pattern ((select %s i))))",
 		i, s.Len.S, na.S, m.S, s.Arr.S, s.Off.S, na.S), SBool})
-	e.setVar("M|byte", store(m, arr, na))
+	e.setVarAt("M|byte", arr, store(m, arr, na))
 	return Sl{Arr: arr, Off: bv64(0), Len: s.Len, Cap: s.Len, Elem: types.Typ[types.Uint8]}
 }
 
@@ -1341,7 +1365,7 @@ func (e *Enc) strConcat(a, b Str) Val {
 		i, a.Len.S, na.S, m.S, a.Arr.S, a.Off.S, na.S), SBool})
 	e.assume(T{fmt.Sprintf("(forall (%s) (! (=> (bvult i %s) (= (select %s (bvadd %s i)) (select (select %s %s) (bvadd %s i)))) :pattern ((select %s (bvadd %s i)))))",
 		i, b.Len.S, na.S, a.Len.S, m.S, b.Arr.S, b.Off.S, na.S, a.Len.S), SBool})
-	e.setVar("M|byte", store(m, arr, na))
+	e.setVarAt("M|byte", arr, store(m, arr, na))
 	return Str{Arr: arr, Off: bv64(0), Len: e.def("catlen", add(a.Len, b.Len))}
 }
 
@@ -1449,7 +1473,7 @@ func (e *Enc) makeSlice(f *frame, x *ssa.MakeSlice) {
 	if isByte(elem) {
 		// zeroed
 		m := e.byteMem(e.cur)
-		e.setVar("M|byte", store(m, arr, T{"((as const " + SArr + ") #x00)", SArr}))
+		e.setVarAt("M|byte", arr, store(m, arr, T{"((as const " + SArr + ") #x00)", SArr}))
 	}
 	f.vals[x] = Sl{Arr: arr, Off: bv64(0), Len: ln, Cap: cp, Elem: elem}
 }
